@@ -279,7 +279,7 @@ impl std::fmt::Display for InvalidProofKind {
                 leaf_index,
                 tree_size,
             } => {
-                let tree_index = crate::leaf_index_to_tree_index(*leaf_index);
+                let tree_index = leaf_index.saturating_mul(2);
                 f.write_fmt(format_args!(
                     "leaf index {leaf_index} corresponding to tree index {tree_index} exceeds \
                      tree of size {tree_size}"
@@ -546,7 +546,13 @@ impl Proof {
         let mut i = crate::leaf_index_to_tree_index(*leaf_index);
         let mut acc = leaf_hash;
         for sibling in audit_path.chunks(32) {
-            let parent = crate::complete_parent(i, tree_size.get());
+            let Some(parent) = crate::checked_complete_parent(i, tree_size.get()) else {
+                // The audit path is longer than the depth of the leaf: the root has no parent.
+                // Keep folding the surplus segments in; the result is then not the hash of any
+                // node of the tree.
+                acc = crate::combine(&acc, sibling);
+                continue;
+            };
             if parent > i {
                 acc = crate::combine(&acc, sibling);
             } else {
